@@ -27,7 +27,7 @@ AGREE_TEXT = {0: 'agree', 1: 'model rejects, code accepts', 2: 'model accepts, c
               99: 'case file did not evaluate'}
 
 
-COLS = ['agree', 'C01', 'C03', 'C04', 'C05', 'C11', 'C12', 'C13', 'C01struct', 'C03values', 'C06', 'C08', 'C13order']
+COLS = ['agree', 'C01', 'C03', 'C04', 'C05', 'C11', 'C12', 'C13', 'C01struct', 'C03values', 'C06', 'C08', 'C13order', 'coherent']
 
 
 def xcase_term(pipe, req, res, n=48, exps=()):
